@@ -1398,6 +1398,9 @@ def _sp_bin_others(name):
             if name == "__rtruediv__" and oname != "scalar":
                 continue
             yield oname, ob
+        if name in ("__mul__", "__truediv__"):
+            # the two element-wise operations that take a Kruskal operand
+            yield "ktensor", (lambda: g.K(sh, 2, salt=5))
     return others
 
 
